@@ -45,6 +45,7 @@ def hist_mix(rnd, sid, steps=10, objs=("o1", "o2")):
     # every declared-random field takes part in one successful call first (quarantine of known finding
     # C03-referenced-never-randomized: see known_findings.json; witnesses in family_H)
     ops.append({"op": "call", "call": {"kind": "free", "roots": ["fa", "fb"], "owner": "", "inline": []}})
+    nlsz = {o: 3 for o in objs}
     for o in objs:
         ops.append({"op": "rl", "kind": "rl_extend", "p": o + ".rl", "items": [3]})
         ops.append({"op": "call", "call": mcall(o)})
@@ -77,12 +78,18 @@ def hist_mix(rnd, sid, steps=10, objs=("o1", "o2")):
                 ops.append({"op": "rl", "kind": "rl_extend", "p": o + ".rl", "items": [[lo, min(3, lo + 1)]]})
         elif r < 0.52:
             kind = rnd.choice(["l_append", "l_setitem", "l_assign", "l_extend"])
+            # the model bounds the list length (cap 6 in world_mix): keep the generated history inside it
+            if kind in ("l_append", "l_extend") and nlsz[o] >= 6:
+                kind = "l_assign"
+            if kind in ("l_append", "l_extend"):
+                nlsz[o] += 1
             if kind == "l_append":
                 ops.append({"op": "list", "kind": kind, "p": o + ".nl", "vs": [bits(rnd.randrange(4), 2)]})
             elif kind == "l_setitem":
                 ops.append({"op": "list", "kind": kind, "p": o + ".nl", "i": 0, "vs": [bits(rnd.randrange(4), 2)]})
             elif kind == "l_assign":
                 ops.append({"op": "list", "kind": kind, "p": o + ".nl", "vs": [bits(rnd.randrange(4), 2) for _ in range(rnd.randint(1, 3))]})
+                nlsz[o] = len(ops[-1]["vs"])
             else:
                 ops.append({"op": "list", "kind": kind, "p": o + ".nl", "vs": [bits(rnd.randrange(4), 2)]})
         elif r < 0.80:
